@@ -225,3 +225,26 @@ Example C04_global_flows_down_nonvacuous :
   /\ mget global_key (section_of "sub" (coalesce_values false ex_gtop ex_guser)) = None.
 Proof. exact ex_global. Qed.
 Print Assumptions C04_global_flows_down_nonvacuous.
+
+(* The frame of ANY parse by any of the five strvals entry points ([c] = the parser
+   configuration), for every input string — well-formed or not — and every destination,
+   whether the parse succeeds or FAILS: the destination as the call leaves it (ParseInto
+   writes into its destination while it goes and does not undo that when it fails later)
+   differs from what it was at most at the top-level keys that the name=value pairs the parser
+   got to start with ([heads]: each pair's first key as runesUntil reads it).  Every other
+   top-level key — and everything below it — is unchanged.
+   (values.Options.MergeValues discards the table on an error altogether: Options.merge_values
+   is None.)  What is left AT a named key after a failure is the model's value-semantic
+   reading, compared with the real code only through this frame. *)
+Theorem C04_set_error_frame : forall (c : pcfg) (s : string) (dest : vmap) (k' : string),
+  ~ In k' (heads (S (String.length s)) c dest s) ->
+  mget k' (pres_table (parse_with c s dest) dest) = mget k' dest.
+Proof. exact parse_frame. Qed.
+Print Assumptions C04_set_error_frame.
+
+Example C04_set_error_frame_nonvacuous :
+  parse_into "a.b=1,c[x]=2,d=3" [("c", VStr "old"); ("z", VBool true)]
+  = PErr [("c", VStr "old"); ("z", VBool true); ("a", VMap [("b", VNum 1%Z)])]
+  /\ heads 17 (mkCfg MTyped [] []) [("c", VStr "old"); ("z", VBool true)] "a.b=1,c[x]=2,d=3" = ["a"; "c"].
+Proof. exact ex_error_frame. Qed.
+Print Assumptions C04_set_error_frame_nonvacuous.
